@@ -11,7 +11,12 @@ EXTENDS Integers, Sequences, FiniteSets, TLC
 \* pk names the pixel kind: "bw" (1 bit gray), "gray" (8 bit gray), "rgb" (8 bit RGB), "cmyk", "other"
 PkBits(pk) == IF pk = "bw" THEN 1 ELSE 8
 PkCS(pk) == CASE pk \in {"bw", "gray"} -> "G" [] pk = "rgb" -> "RGB" [] pk = "cmyk" -> "CMYK" [] OTHER -> "other"
-Img(n, ch, pk, g) == [name |-> n, filters |-> ch, pk |-> pk, bits |-> PkBits(pk), cs |-> PkCS(pk), w |-> g[1], h |-> g[2]]
+\* sp = <<filter, parms, colour space, geometry>>: how the stream dictionary spells its entries
+\*   filter   "name" | "abbr" | "arr1" (always an array) | "indirect" (/Filter n 0 R) | "arrind" (array of n 0 R)
+\*   parms    "direct" | "indirect" | "arr";   colour space "name" | "indirect" | "array";   geometry (W, H, BPC) "direct" | "indirect"
+PlainSpelling == <<"name", "direct", "name", "direct">>
+ImgS(n, ch, pk, g, sp) == [name |-> n, filters |-> ch, pk |-> pk, bits |-> PkBits(pk), cs |-> PkCS(pk), w |-> g[1], h |-> g[2], sp |-> sp]
+Img(n, ch, pk, g) == ImgS(n, ch, pk, g, PlainSpelling)
 BmpBits(pk) == CASE pk = "bw" -> 1 [] pk = "gray" -> 8 [] pk = "rgb" -> 24 [] OTHER -> 0
 BytesPerLine(im) == CASE im.pk = "bw" -> (im.w + 7) \div 8 [] im.pk = "gray" -> im.w [] im.pk = "rgb" -> im.w * 3 [] OTHER -> im.w * 4
 DataLen(im) == BytesPerLine(im) * im.h
@@ -33,14 +38,23 @@ LZWFamily == {"LZW", "LZWE0", "LZWE1", "LZWPNG", "LZWTIFF"}
 Lossless == {"Flate", "LZW", "LZWE0", "LZWE1", "A85", "AHx", "RL"} \cup PredictorFilters
 LastFilter(im) == IF im.filters = <<>> THEN "none" ELSE im.filters[Len(im.filters)]
 HasJBIG2(im) == \E q \in 1..Len(im.filters) : im.filters[q] = "JBIG2"
+\* what the decision tree sees.  The spelling of the dictionary must not matter; as deviations:
+\*   "FilterEntryUnresolved" the last filter is read off the /Filter entry itself: an indirect entry or element is not a name
+\*                           (a seeded change)
+\*   "ColorSpaceUnresolved"  LTImage.colorspace keeps an indirect /ColorSpace as a reference: neither gray nor RGB
+\*   "GeometryUnresolved"    LTImage.srcsize / bits keep indirect /Width /Height /BitsPerComponent as references: bits is
+\*                           neither 1 nor 8 and the writers fail on them with TypeError
+LastSeen(im, dv) == IF "FilterEntryUnresolved" \in dv /\ im.sp[1] \in {"indirect", "arrind"} THEN "unresolved" ELSE LastFilter(im)
+SeenCS(im, dv) == IF "ColorSpaceUnresolved" \in dv /\ im.sp[3] = "indirect" THEN "other" ELSE im.cs
 Decide(im, dv) ==
   IF im.filters = <<>> /\ "UnfilteredIndexError" \in dv THEN "IndexError"
-  ELSE IF LastFilter(im) = "DCT" THEN "jpeg"
-  ELSE IF LastFilter(im) = "JPX" THEN "jp2"
+  ELSE IF LastSeen(im, dv) = "DCT" THEN "jpeg"
+  ELSE IF LastSeen(im, dv) = "JPX" THEN "jp2"
   ELSE IF HasJBIG2(im) THEN "jbig2"
+  ELSE IF "GeometryUnresolved" \in dv /\ im.sp[4] = "indirect" THEN "TypeError"
   ELSE IF im.bits = 1 THEN "bmp"
-  ELSE IF im.bits = 8 /\ im.cs = "RGB" THEN "bmp"
-  ELSE IF im.bits = 8 /\ im.cs = "G" THEN "bmp"
+  ELSE IF im.bits = 8 /\ SeenCS(im, dv) = "RGB" THEN "bmp"
+  ELSE IF im.bits = 8 /\ SeenCS(im, dv) = "G" THEN "bmp"
   ELSE IF Len(im.filters) = 1 /\ im.filters[1] \in FlateFamily THEN "bytes"
   ELSE "raw"
 Ext(im, d) == CASE d = "jpeg" -> ".jpg" [] d = "jp2" -> ".jp2" [] d = "jbig2" -> ".jb2" [] d = "bmp" -> ".bmp" [] d = "bytes" -> ".jpg"
